@@ -441,7 +441,15 @@ func c18Memory(c *Ctx) {
 	for i := 0; i < per; i++ {
 		c.Case(idx, func(k *K) {
 			r := k.Rand()
-			root, _ := randomTree(r, 1+r.IntN(40), r.IntN(4))
+			root, nodes := randomTree(r, 1+r.IntN(40), r.IntN(4))
+			if r.IntN(2) == 0 { // childless nodes whose Children is empty but not nil: pruned in place, made with a capacity, from JSON "[]"
+				for _, nd := range nodes {
+					if nd.Children == nil && r.IntN(2) == 0 {
+						nd.Children = pick(r, [][]*newick.Node{{}, make([]*newick.Node, 0, 4), append([]*newick.Node{{Name: "pruned"}}, nil)[:0]})
+					}
+				}
+				k.Count("trees_with_empty_non_nil_children", 1)
+			}
 			k.Input("tree", func() string { return treeKey(root) })
 			if k.Idx%2 == 0 {
 				stopMonitor(k, "Node.PreOrder", func() rawIter { return raw1(root.PreOrder(), nodeKey) }, stopOpts{})
